@@ -146,7 +146,7 @@ def run(tier, seed):
         # modes: the routing must not depend on the output mode (bigquery renames schema -> dataset)
         if what in ("routing", "effects"):
             last_routing = last_routing + g.beh
-        if what == "routing":
+        if what in ("routing", "effects"):     # (effects: every ALTER kind incl. composite foreign keys to a qualified table)
             sub = g.beh if thorough else rnd.sample(g.beh, min(len(g.beh), 1500))
             for m in ("bigquery", "mssql", "hql"):
                 n2, nu2, _ = compare(V, sub, seeds[:1], f"{what}/{m}", run={"output_mode": m})
